@@ -1066,7 +1066,8 @@ func (c18) Gen(r *kern.Rng, tier string, idx int) *Trace {
 		sc := &scen.WScen{Pkg: "flate", Guard: true, Ctor: r.PickS("new", "new", "4k"), Level: r.Pick(1, 2, -1)}
 		sc.Data = scen.DataSpec{Kind: "logcopies", Seed: r.Uint64(), P1: r.Pick(0, 1), Len: r.Range(150000, 320000)}
 		sc.Ops = []scen.WOp{{K: "w", N: 1 << 30}, {K: "c"}}
-		return &Trace{Property: "C18", Family: "W-plain(content sweep) at the forced level", W: sc, Sweep: true, Stride: tierLen(tier, 40, 120), Note: "seed_sweep"}
+		stride, note := contentSweepKind(r, tier, sc)
+		return &Trace{Property: "C18", Family: "W-plain(content sweep) at the forced level", W: sc, Sweep: true, Stride: stride, Note: note}
 	}
 	if idx%5 == 4 {
 		// "at every level the compressor's output satisfies all the other
